@@ -17,6 +17,9 @@ CONSTANTS
   AllowEarly = FALSE
   TickInPrune = TRUE
   UntypedDedup = FALSE
+  DeriveFrom <- NoDerive
+  DeriveForget = FALSE
+  SnapFirst = FALSE
 VIEW View
 INVARIANTS TypeOK AllReadable BroughtBack NoDangling
 CHECK_DEADLOCK FALSE
